@@ -8,9 +8,9 @@ from ..cases import Interp, Lin, Oracle, Undecided
 from ..cfg import CFG, EXIT
 from ..core import Ctx
 from ..flow import AV
-from ..model import body_stmts, dotted, kwarg, norm, walk_no_nested
+from ..model import AnalysisError, body_stmts, dotted, kwarg, norm, walk_no_nested
 from .c03 import rule_fast_cache
-from .common import assigned_value, enclosing, prog, resolve_local, stores_to
+from .common import assigned_value, bound_args, enclosing, prog, resolve_local, stores_to
 
 FAST = "Continuum.get_fast_alignment"
 
@@ -71,8 +71,10 @@ def rule_progress(ctx: Ctx):
     W = loops[0]
     # window from the copy, best alignment of the window
     win = [s for s in W.body if isinstance(s, ast.Assign) and isinstance(s.value, ast.Call) and norm(s.value.func) == f"{cp}.get_first_window"]
-    ok_w = len(win) == 1 and isinstance(win[0].targets[0], ast.Tuple) and len(win[0].targets[0].elts) == 2 and \
-        [norm(a) for a in win[0].value.args] == [f.params[1], f.params[2]]
+    gfw = ctx.fn("Continuum.get_first_window", "R-C10-2")
+    ba_ = bound_args(win[0].value, gfw) if len(win) == 1 else None
+    ok_w = len(win) == 1 and isinstance(win[0].targets[0], ast.Tuple) and len(win[0].targets[0].elts) == 2 and ba_ is not None and \
+        [norm(ba_[k]) if k in ba_ else None for k in gfw.params[1:]] == [f.params[1], f.params[2]]
     ctx.check(ok_w, "R-C10-2", f, win[0] if win else W, "each window is taken from the remaining units of the working copy, with the requested window size",
               bad_detail="the window is not copy.get_first_window(dissimilarity, window_size)", key="window")
     if not ok_w:
@@ -220,8 +222,12 @@ def rule_fallback(ctx: Ctx):
               "a new continuum starts with the sentinel window size (inf): not measured = exact algorithm", key="default")
     for qn in ("Continuum.copy", "Continuum.copy_flush"):
         c = ctx.fn(qn, "R-C10-4")
-        ok = any(isinstance(s, ast.Assign) and norm(s.targets[0]).endswith(".best_window_size") and norm(s.value) == f"{c.self_name}.best_window_size"
-                 for s in walk_no_nested(c.node))
+        from .c13 import _carried_fields
+        try:
+            ok = "best_window_size" in _carried_fields(ctx, c)      # direct store, or through the method that builds the new continuum
+        except AnalysisError:
+            ok = any(isinstance(s, ast.Assign) and norm(s.targets[0]).endswith(".best_window_size") and norm(s.value) == f"{c.self_name}.best_window_size"
+                     for s in walk_no_nested(c.node))
         ctx.check(ok, "R-C10-4", c, None, f"{qn} carries the window size: samples built on copy_flush() use the measured size", construct="best_window_size", key=f"carry:{qn}")
     m = ctx.fn("Continuum.measure_best_window_size", "R-C10-4")
     ms = m.self_name
